@@ -787,6 +787,42 @@ def rule_track_distances(ctx, R):
         n += 1
         ctx.check(okc, R, b, 'both-sides-use-requested-class', '', 'observations are not looked up under the '
                   'requested feature class on both sides')
+    # (b') the missing-class outcome is decided by the LOOKUP alone: a class that is present (even with no observations
+    # left) gives the empty product, not the ObservationForClassNotFound report
+    for bb, kind, desc in exits(b):
+        if kind != 'ok':
+            continue
+        for k_ in path_conditions(b, bb):
+            if k_.kind != 'discr' or k_.expr is None or not k_.expr.has_field('observations'):
+                continue
+            x_ = k_.expr.strip()
+            alts_ = x_.args if x_.kind == 'phi' else [x_]
+            bad_ = None
+            from lib import scrutinee_none_defs
+            from lib import paths_to
+            nds_ = []
+            for bb_, cs in (scrutinee_none_defs(b, k_) or []):
+                nds_ += (paths_to(b, bb_) or [cs])
+            for a_ in alts_:
+                if a_.kind == 'agg' and a_.name.endswith('None') and not a_.args and a_.site:
+                    nds_ += (paths_to(b, a_.site[0]) or [path_conditions(b, a_.site[0])])
+            for a_ in alts_:
+                if a_.kind == 'call' and a_.name.rsplit('::', 1)[-1] in ('filter', 'and_then', 'take_if', 'filter_map'):
+                    bad_ = 'the lookup result goes through `%s`' % a_.name.rsplit('::', 1)[-1]
+            for cs_ in nds_:
+                if True:
+                    if not any(c2.kind == 'discr' and c2.variants == {'None'} and c2.expr is not None and
+                               c2.expr.has_call('get') and not any(
+                                   y.kind == 'call' and y.name.rsplit('::', 1)[-1] in ('filter', 'take_if', 'and_then', 'filter_map',
+                                                                                      'is_empty', 'len', 'then', 'then_some')
+                                   for y in c2.expr.walk())
+                               for c2 in cs_):
+                        bad_ = 'an absent list is produced although the lookup found the class'
+            n += 1
+            ctx.check(bad_ is None, R, b, 'class-missing-iff-lookup-fails:%s' % ('/'.join(sorted({'self' if p_.root == ('param', 1) else 'other' for p_ in x_.places() if p_.root[0] == 'param' and 'observations' in p_.fields})) or '?'), repr(x_)[:100],
+                      'whether a track has observations of the requested class is not decided by the map lookup alone (%s: '
+                      '%r): a class that is present but empty is reported as ObservationForClassNotFound on the error '
+                      'stream where the query has no pairs and no error' % (bad_, x_), desc.split(' at ')[-1])
     # (c) error kinds
     e0 = eb.place(0, ())
     kinds = {x.name.split('::')[-1] for x in e0.walk() if x.kind == 'agg' and x.name.startswith('Errors::')}
@@ -913,4 +949,125 @@ def rule_worker_keeps_serving(ctx, R):
                   'the %s arm of the store worker can end the worker thread (a path from the arm reaches `return` without '
                   'coming back to the command loop): after one undeliverable answer the shard has no worker left and every '
                   'later operation on it fails' % v)
+    return n
+
+
+def rule_reply_channels_per_call(ctx, R):
+    """every command a TrackStore method sends to its workers that carries a reply sender carries the sending end of a
+    channel created by THAT call (crossbeam unbounded() / bounded() in the same body). A reply channel kept in the store
+    and shared between calls lets two concurrent callers (`lookup` takes &self; the trackers call it under a read
+    guard) take each other's replies: replies are counted, not attributed."""
+    F = ctx.F
+    n = 0
+    from lib import all_closures
+    for b0 in sorted(F.all_bodies(), key=lambda x: x.npath):
+        if b0.kind == 'Closure' or not b0.npath.startswith(STORE + '::') or wiring_skip(b0):
+            continue
+        for b in [b0] + all_closures(F, b0):
+            eb = ExprBuilder(b)
+            for i in sorted(b.live_blocks()):
+                for si, st in enumerate(b.blocks[i]['st']):
+                    rv = st.get('rv') if st['k'] == 'assign' else None
+                    if not rv or rv.get('k') != 'agg' or rv.get('ak') != 'adt' or not str(rv.get('adt', '')).endswith('Commands'):
+                        continue
+                    for op in rv['ops']:
+                        if op.get('k') not in ('copy', 'move'):
+                            continue
+                        ty = str(b.locals[op['pl']['l']])
+                        if 'Sender<' not in ty:
+                            continue
+                        e = eb.operand(op, at=(i, si))
+                        alts = [a for a in (e.args if e.kind == 'phi' else [e]) if not (a.kind == 'agg' and a.name.endswith('None'))]
+                        if not alts:
+                            continue
+                        from lib import subst_upvars
+                        e2 = subst_upvars(F, b, e) if b is not b0 else e
+                        created = any(x.kind == 'call' and x.name.rsplit('::', 1)[-1] in ('unbounded', 'bounded') for x in e2.walk())
+                        es_ = e2.strip()
+                        if not created and es_.kind == 'place' and es_.root[0] == 'param' and not es_.fields and b is not b0:
+                            ctx.note(R, 'a closure of %s builds Commands::%s around a sender it receives as its own parameter: '
+                                     'not evaluated (no alarm)' % (b0.npath, rv.get('v')))
+                            continue
+                        if not created and es_.kind == 'place' and es_.root[0] == 'param' and es_.root[1] != 1 and not es_.fields \
+                                and b is b0:
+                            # the reply sender is handed in by the caller (a private helper that fans the command out):
+                            # judged at the callers inside the store
+                            cs_ = [(cb_, c_) for cb_, c_ in F.callers().get(b0.npath, []) if not wiring_skip(cb_)]
+                            verdicts = []
+                            for cb_, c_ in cs_:
+                                if es_.root[1] - 1 < len(c_.args):
+                                    a_ = ExprBuilder(cb_).arg(c_, es_.root[1] - 1)
+                                    verdicts.append(any(x.kind == 'call' and x.name.rsplit('::', 1)[-1] in ('unbounded', 'bounded')
+                                                        for x in a_.walk()) and not any(
+                                        p.root == ('param', 1) and p.fields for p in a_.places()))
+                            if not verdicts:
+                                ctx.note(R, '%s receives its reply sender as a parameter and has no caller in the crate: not evaluated' % b0.npath)
+                                continue
+                            created = all(verdicts)
+                        from_self = any(p.root == ('param', 1) and p.fields and b is b0 for p in e2.places()) or \
+                            any(p.root == ('param', 1) and p.fields for p in (e2.places() if b is not b0 else []))
+                        n += 1
+                        ctx.read(b)
+                        ctx.check(created and not from_self, R, b0, 'reply-channel-created-by-the-call:%s' % rv.get('v'),
+                                  repr(e2)[:80], '%s sends Commands::%s with the reply sender %r: not the sending end of a '
+                                  'channel created by this call - callers that run at the same time (lookup takes &self) '
+                                  'take each other\'s replies from a shared channel' % (
+                                      b0.npath.rsplit('::', 1)[-1], rv.get('v'), e2), st.get('ln'))
+    return n
+
+
+def wiring_skip(b):
+    import wiring
+    return wiring.skip_body(b)
+
+
+COPIES = ('to_vec', 'clone', 'to_owned', 'into', 'from', 'iter', 'into_iter', 'cloned', 'copied', 'collect', 'deref', 'as_ref',
+          'as_slice', 'borrow', 'unwrap', 'from_iter', 'into_vec', 'unsize', 'extend_from_slice', 'into_boxed_slice',
+          'unwrap_or_default', 'unwrap_or', 'unwrap_or_else', 'map', 'map_or', 'map_or_else', 'new', 'default', 'to_vec_in')
+
+
+def rule_merge_classes_verbatim(ctx, R):
+    """the class list of Commands::Merge is the caller's list: a copy of `classes` when it is given, the empty list (= all
+    classes of the source, as the worker reads it) only when it is None. A list that is filtered / deduplicated on the
+    way can become EMPTY for a request that named classes, and the worker then merges every class of the source."""
+    n = 0
+    b = ctx.anchor(R, STORE + '::merge_external_noblock')
+    if b is None:
+        return 0
+    import wiring
+    pn = {v: k for k, v in wiring.param_names(b).items()}
+    if 'classes' not in pn:
+        ctx.note(R, 'merge_external_noblock has no `classes` parameter: class-list clause not evaluated')
+        return 0
+    root = ('param', pn['classes'])
+    eb = ExprBuilder(b)
+    for i in sorted(b.live_blocks()):
+        for si, st in enumerate(b.blocks[i]['st']):
+            rv = st.get('rv') if st['k'] == 'assign' else None
+            if not rv or rv.get('k') != 'agg' or not str(rv.get('adt', '')).endswith('Commands') or rv.get('v') != 'Merge':
+                continue
+            for op in rv['ops']:
+                if op.get('k') not in ('copy', 'move') or 'Vec<' not in str(b.locals[op['pl']['l']]):
+                    continue
+                e = eb.operand(op, at=(i, si))
+                for a in (e.args if e.kind == 'phi' else [e]):
+                    cs = path_conditions(b, a.site[0]) if a.site else []
+                    given = any(c.kind == 'discr' and c.variants == {'Some'} and c.expr is not None and c.expr.has_place(root=root)
+                                for c in cs)
+                    absent = any(c.kind == 'discr' and c.variants == {'None'} and c.expr is not None and
+                                 c.expr.has_place(root=root) for c in cs)
+                    calls = [x.name.rsplit('::', 1)[-1] for x in a.walk() if x.kind == 'call']
+                    n += 1
+                    if a.has_place(root=root):
+                        bad = [c for c in calls if c not in COPIES]
+                        ctx.check(not bad, R, b, 'merge-class-list=the-callers-list', repr(a)[:80],
+                                  'the class list sent with Commands::Merge is not a plain copy of `classes` (it goes through '
+                                  '%s: %r): a request whose classes are all dropped on the way reaches the worker as the '
+                                  'empty list, which the worker reads as "every class of the source"' % (bad, a), st.get('ln'))
+                    else:
+                        empty = a.kind == 'call' and a.name.rsplit('::', 1)[-1] in ('new', 'default', 'with_capacity') or (
+                            a.kind == 'agg' and not a.args)
+                        ctx.check(empty and absent and not given, R, b, 'merge-class-list-empty-only-when-none', repr(a)[:80],
+                                  'Commands::Merge is sent with %r on a path where `classes` is not None: the worker reads an '
+                                  'empty list as "every class of the source"' % (a,), st.get('ln'))
     return n
